@@ -59,6 +59,13 @@ impl V {
     }
 }
 
+/// Strings and lists that double in a loop outgrow every step budget long before the steps run
+/// out: values beyond this size are outside the modelled domain (reported like an exhausted
+/// step budget, the input vector is skipped).
+fn data_budget(n: usize) -> Result<(), Stop> {
+    if n > 1 << 16 { Err(Stop::Budget) } else { Ok(()) }
+}
+
 /// Language-level `==` (IEEE for floats, structural otherwise).
 pub fn lang_eq(a: &V, b: &V) -> bool {
     match (a, b) {
@@ -495,8 +502,12 @@ impl<'a> Interp<'a> {
                     _ => return Err(Stop::Unsupported("float op".into())),
                 }))
             }
-            (V::Str(x), V::Str(y)) if op == BinOp::Add => Ok(V::Str(format!("{x}{y}"))),
+            (V::Str(x), V::Str(y)) if op == BinOp::Add => {
+                data_budget(x.len() + y.len())?;
+                Ok(V::Str(format!("{x}{y}")))
+            }
             (V::List(x), V::List(y)) if op == BinOp::Add => {
+                data_budget(x.borrow().len() + y.borrow().len())?;
                 let mut v: Vec<V> = x.borrow().iter().cloned().collect();
                 v.extend(y.borrow().iter().cloned());
                 Ok(V::list(v))
@@ -787,6 +798,7 @@ impl<'a> Interp<'a> {
                         }
                     }
                 }
+                data_budget(s.len())?;
                 Ok(V::Str(s))
             }
             Expr::Try(a) => match self.expr(a, env)? {
@@ -983,6 +995,7 @@ impl<'a> Interp<'a> {
             }),
             (V::List(l), "concat") => {
                 let V::List(o) = &args[0] else { return Err(Stop::Unsupported("concat".into())) };
+                data_budget(l.borrow().len() + o.borrow().len())?;
                 let mut v: Vec<V> = l.borrow().iter().cloned().collect();
                 v.extend(o.borrow().iter().cloned());
                 Ok(V::list(v))
@@ -1000,7 +1013,10 @@ impl<'a> Interp<'a> {
                 Ok(V::Str(parts.join(sep)))
             }
             (V::Str(s), "append") => match &args[0] {
-                V::Str(o) => Ok(V::Str(format!("{s}{o}"))),
+                V::Str(o) => {
+                    data_budget(s.len() + o.len())?;
+                    Ok(V::Str(format!("{s}{o}")))
+                }
                 _ => Err(Stop::Unsupported("append".into())),
             },
             (V::Str(s), "contains") => match &args[0] {
